@@ -60,7 +60,7 @@ class Bounded:
 
 class Prop:
     def __init__(self, pid, title, functions=(), lemmas=(), bounded=(), assumptions=(), level='proof',
-                 replay=None, effects=None, extra_axioms=None, notes='', explanation=''):
+                 replay=None, effects=None, extra_axioms=None, notes='', explanation='', setup=None):
         self.pid = pid
         self.title = title
         self.functions = list(functions)
@@ -73,6 +73,7 @@ class Prop:
         self.extra_axioms = extra_axioms
         self.notes = notes
         self.explanation = explanation
+        self.setup = setup
 
 
 def load_known():
@@ -125,6 +126,8 @@ def run(prop, tier='quick', seed=0, repo='/repo', update_lock=False, verbose=Fal
     os.makedirs(ev_dir, exist_ok=True)
     os.makedirs(rp_dir, exist_ok=True)
     eng = Engine(repo)
+    if prop.setup is not None:
+        prop.setup(eng)
     undecided = []
     crashed = []
     fn_infos = []
